@@ -8,7 +8,7 @@ use std::cell::UnsafeCell;
 pub const NO_JOB: u32 = u32::MAX;
 
 /// Per-task context that has to survive a scheduling point (saved before, restored after).
-#[derive(Clone, Copy, Debug)]
+#[derive(Clone, Copy, Debug, PartialEq)]
 pub struct TaskCtx {
     pub zone: u8,
     pub job: u32, // (phase << 12 | job index) or NO_JOB
